@@ -93,6 +93,13 @@ def c14_families(tier):
         ex.append(fam("X", "str", DQ, S("\\X"), [DQ, BS, 103, 43], 4))
         ex.append(fam("sq", "str", SQ, [], [BS, DQ, SQ, 97, 48, 32], 4))
         ex.append(fam("num", "num", 0, [], [48, 49, 53, 55, 57, 97, 101, 120, 46, 43, 45], 4))
+    # every class of the alphabet at least once in an exhaustive family, in both tiers
+    simple = S("abfnrtv\\'\"?") + S("ezN9") + [EACUTE, 32]
+    ex.append(fam("simple", "str", DQ, [BS], simple, 3))
+    ex.append(fam("simplesq", "str", SQ, [BS], simple, 2))
+    ex.append(fam("numX", "num", 0, S("0X"), [48, 49, 102, 70, 46, 101, 120], 5))
+    ex.append(fam("numE", "num", 0, S("1E"), [48, 49, 43, 45, 46, 101], 5))
+    ex.append(fam("nume", "num", 0, S("1e"), [48, 49, 43, 45, 46, 69], 5))
     numalpha = [48, 49, 55, 56, 57, 102, 101, 46, 45, 120]
     for i, b in enumerate(NUM_BOUNDS):
         ex.append(fam("nb%d" % i, "num", 0, S(b), numalpha, len(b) + 1))
